@@ -186,25 +186,23 @@ def worker(prop, base_seed, start, stride, tier, armed, deadline, max_runs):
 
 # ----------------------------------------------------------------- findings
 def arm_findings(prop):
-    """Replay the witnesses of this property's `known` findings; a witness that
-    still fails prints KNOWN-FINDING and arms its recogniser."""
+    """Replay the witness of every `known` finding; a witness that still fails
+    arms its recogniser (and prints KNOWN-FINDING if the finding is listed for
+    this property).  `fixed` findings are never armed."""
     from .known import load_findings
     from .profiles import PROFILES
 
-    armed = set()
+    armed = {}
     for f in load_findings():
-        if f["status"] != "known" or prop not in f["properties"]:
+        if f["status"] != "known":
             continue
-        wit = f.get("witness", {}).get(prop) or f.get("witness", {}).get("any")
-        if wit is None:
-            continue
-        profile = PROFILES[wit.get("profile", prop)]
-        run = execute(profile, wit["scenario"], armed=frozenset(), count_mode=False)
-        hit = [v for v in run.violations if v.get("would_be_finding") == f["id"]]
-        if hit:
-            print(f"KNOWN-FINDING: property={prop} {f['id']} {f['what_fails']}")
-            armed.add(f["id"])
-    return frozenset(armed)
+        wit = f["witness"]
+        run = execute(PROFILES[wit["profile"]], wit["scenario"], armed=frozenset())
+        if any(v.get("would_be_finding") == f["id"] for v in run.violations):
+            armed[f["id"]] = f
+            if prop in f["properties"]:
+                print(f"KNOWN-FINDING: property={prop} {f['id']} {f['what_fails']}")
+    return armed
 
 
 # -------------------------------------------------------------------- replay
@@ -274,7 +272,8 @@ def run_check(prop, tier, base_seed, budget_s=None, max_runs=None):
     profile = PROFILES[prop]
     if budget_s is None:
         budget_s = profile.budget(tier)
-    armed = arm_findings(prop)
+    armed_info = arm_findings(prop)
+    armed = frozenset(armed_info)
     deadline = t0 + budget_s
     per = max_runs if max_runs is not None else 10**9
     agg = new_agg()
@@ -308,6 +307,10 @@ def run_check(prop, tier, base_seed, budget_s=None, max_runs=None):
         status = 1
         if len(reported) >= 3:
             break
+    for fid, n in sorted(agg["known_hits"].items()):
+        f = armed_info.get(fid)
+        if f is not None and prop not in f["properties"]:
+            print(f"KNOWN-FINDING: property={prop} {fid} (surfaced here {n}x) {f['what_fails']}")
     if agg["harness_errors"]:
         harness_fail = f"{len(agg['harness_errors'])} harness errors"
         for h in agg["harness_errors"][:2]:
